@@ -36,6 +36,11 @@ def dstepTokens (d : DState) (ts : List String) : DState × String :=
   | "cm" :: rest =>
     let (w', o) := stepTokens2 d.w rest
     if o == "ok" || o == "true" then ({ w := w', hist := d.hist.push w' }, o) else ({ d with w := w' }, o)
+  | "cx" :: _ =>
+    -- a concurrent read-only call whose RESULT is outside C05's single-version claim (Len and the
+    -- two block visitors make several passes): only "no panic, no hang" is checked, so the
+    -- harness reports `ok` unless the call panicked or hung
+    (d, "ok")
   | "cr" :: k :: rest =>
     (match k.toNat? with
      | some k => (d, (stepTokens2 (d.hist.getD k d.w) rest).2)
